@@ -704,6 +704,13 @@ func ruleNoHeap(c *Ctx) []Ob {
 					if isBuiltin(x, "append") && !ei.chain[x.Call.Args[0]] {
 						what = "append to a slice other than the output buffer (may grow on the heap)"
 					}
+					if f := x.Call.StaticCallee(); f != nil && c.InModule(f) && returnsBytesFirst(f.Signature) {
+						for _, a := range x.Call.Args {
+							if isByteSlice(a.Type()) && !ei.chain[a] {
+								what = "append helper " + shortFn(f) + " applied to a buffer other than the output (a temporary that may grow on the heap)"
+							}
+						}
+					}
 					if f := x.Call.StaticCallee(); f != nil && !c.InModule(f) && what == "" {
 						if _, isB := x.Call.Value.(*ssa.Builtin); !isB && !heapAllow[extName(f)] {
 							what = "call to " + extName(f) + ", which is not on the allowlist of allocation-free callees"
